@@ -166,7 +166,10 @@ Theorem C02_blocks_deliver_new_graph_ancestry : forall cap ep lam vals, vals_ok 
   parents_known T e -> nlookup (VecIndex.eid (fe e)) T = None -> (VecIndex.ecr (fe e) < length vals)%nat -> ev_wf T e ->
   r_frame_ok vals T (mk_node (length vals) T e) = true -> few_forkers vals (mk_node (length vals) T e :: T) ->
   exists bl i' ldf ep', step cap pol sample i (OpP (to_aevent ep lam vals e)) = (ObsP None bl ldf ep', i', false) /\
-    delivered_graph (mk_node (length vals) T e :: T) (AbftDfs.marked (l_conf (i_st i))) bl.
+    delivered_graph (mk_node (length vals) T e :: T) (AbftDfs.marked (l_conf (i_st i))) bl /\
+    (existsb AbftSeal.is_sealed bl = false ->
+       forall x, AbftDfs.marked (l_conf (i_st i')) x <-> AbftDfs.marked (l_conf (i_st i)) x \/ exists b, In b bl /\ In x (b_delivered b)) /\
+    (forall b, In b bl -> b_seal b = policy_fn pol ep (b_frame b) 0 [] []).
 Proof. exact deliver_step. Qed.
 
 (* non-vacuity: the hypotheses hold at genesis; on the 48-event run the two blocks deliver 1 and 15 events:
@@ -179,3 +182,20 @@ Proof. exact (conj dx_hyps dx_delivered_is_new_ancestry). Qed.
 
 Print Assumptions C02_store_reachability_is_graph_ancestry.
 Print Assumptions C02_blocks_deliver_new_graph_ancestry.
+
+(* ---- over a whole run (proofs/LinkDeliverRun.v) ----
+   On a valid single-epoch run of the model (Build + Process per event, validators in canonical order, any
+   forkless-cause cache capacity) the blocks, in the order of emission, deliver without repetition exactly the
+   reference's ancestry of their Atropos minus what the EARLIER BLOCKS delivered: delivered_graph from the empty
+   set over the reference's final table.  abft's run invariants are carried by its step theorems; the extra
+   invariant is "confirmed marks = union of the delivered lists so far". *)
+From LV Require Import proofs.LinkDeliverRun.
+Theorem C02_run_delivers_new_graph_ancestry : forall cap lam vals, vals_ok vals -> forall K D,
+  valid_run vals D -> (forall e, In e D -> id_fresh K (VecIndex.eid (fe e))) -> (N.of_nat (length D) <= K)%N -> (K < 2 ^ 192)%N ->
+  delivered_graph (table vals D) (fun _ => False) (blocks_in (run cap [] sample (start 1 vals) (abft_ops 1 lam vals D))).
+Proof. exact run_delivers. Qed.
+Example C02_run_delivery_example :
+  valid_run ex2_vals ex2_D /\ delivered_graph (table ex2_vals ex2_D) (fun _ => False) dx_blocks /\
+  map (fun b => (b_frame b, b_atropos b, length (b_delivered b))) dx_blocks = [(1, 1000, 1%nat); (2, 1015, 15%nat)]%N.
+Proof. exact (conj ex2_valid (conj dx_run_delivers (proj1 dx_delivered_is_new_ancestry))). Qed.
+Print Assumptions C02_run_delivers_new_graph_ancestry.
